@@ -24,6 +24,7 @@ func init() {
 
 func runC12(p *eng.Prog, r *eng.Report, tier string) {
 	c := &cx{p, r, tier}
+	jidEqualRule(c, "C12.8")
 	// C12.6 the id the bind answer repeats is the request's own id attribute
 	ownAttrLookups(c, "C12.6", func(f *eng.Fn) bool { return strings.HasPrefix(f.Short, "xmpp.bind") })
 	// C12.3 version numbers (and every other number read from a header) are
